@@ -48,11 +48,12 @@ def BOUND(tier):
 
 
 def CAPS(tier):
-    caps = ["16-cell shape q2,b2|m2,c2: tables with <= 2 or >= 14 true cells plus 256 tables in lexicographic stride (of 65536)"]
+    caps = []
     if tier == "quick":
+        caps.append("16-cell shape q2,b2|m2,c2: tables with <= 2 or >= 14 true cells plus 256 tables in lexicographic stride (of 65536); complete in the thorough tier for the base configuration")
         caps.append("12-cell shapes: tables with <= 2 or >= 10 true cells plus 256 tables in stride (of 4096); complete in the thorough tier for the base configuration")
     else:
-        caps.append("12-cell shapes, non-base configurations: capped table set as in the quick tier")
+        caps.append("12- and 16-cell shapes, non-base configurations: capped table set as in the quick tier (base configuration: all 4096 resp. 65536 tables)")
     return caps
 
 
@@ -71,7 +72,7 @@ def _configs(ncells):
 
 def _tables(ncells, tier, base_cfg):
     full = list(range(2 ** ncells))
-    if ncells <= 8 or (tier == "thorough" and base_cfg and ncells <= 12):
+    if ncells <= 8 or (tier == "thorough" and base_cfg):
         return full, False
     keep = [t for t in full if bin(t).count("1") <= 2 or bin(t).count("1") >= ncells - 2]
     keep += full[:: len(full) // 256]
